@@ -468,6 +468,12 @@ def r01_5(prog: Program, rep):
     if verdict is None:
         raise AnalysisError("_parse_message: continuation branch not found")
     rep.ob("R01.5", OBJ, pm.qual, "the reader removes exactly the continuation prefix the writer adds", verdict, why, line)
+    # the writer folds a header value at exactly the byte the reader unfolds at (LF): split(b"\n"), never splitlines()
+    from sa.common import exact_separator_discipline
+    exact_separator_discipline(rep, "R01.5", m, skip=("Blob.splitlines",))
+    seps = [c.args[0].value for c in ast.walk(fm.node) if isinstance(c, ast.Call) and isinstance(c.func, ast.Attribute) and c.func.attr == "split"
+            and c.args and isinstance(c.args[0], ast.Constant)]
+    rep.ob("R01.5", OBJ, fm.qual, "header values are folded at LF and nothing else", seps == [b"\n"], f"split separators: {seps}", fm.node.lineno)
 
 
 def r01_4(prog: Program, rep):
@@ -641,6 +647,9 @@ def run(prog: Program, rep, tier="quick"):
     r01_5(prog, rep)
     r01_6(prog, rep)
     r01_7(prog, rep)
+    from sa.common import chunk_boundary_rule
+    rep.rule("R01.8", "CHUNKING: a blob's derived views do not depend on how its bytes are chunked (loops over chunk lists commute with concatenation)")
+    chunk_boundary_rule(rep, "R01.8", prog.module("dulwich/objects.py"), floor=3)
     rep.floor("R01.1", 10)
     rep.floor("R01.2", 8)
     rep.floor("R01.3", 20)
